@@ -105,6 +105,10 @@ def gen_case(rng, maxdim=14, exact=True):
     lo = rng.choice([1, 1, 1, 0, 2])
     neg = model == 'gain-offset' and rng.random() < 0.25
     style = rng.choice(['linear-noise', 'random', 'linear', 'const-src', 'ramp'])
+    if model == 'gain-offset' and rng.random() < 0.15:
+        # a high signal level with little texture (standard deviation well below 1 % of the mean): a perfectly regular least-squares problem that
+        # any "nearly constant" tolerance relative to the level - rather than to rounding - would misjudge
+        style = 'high-level'
     g = rng.choice([0.5, 1, 1.5, 2, 0.25, 3])
     o = rng.choice([0, 0, 3, -2, 10])
     anti = model == 'gain-offset' and rng.random() < 0.25
@@ -118,6 +122,8 @@ def gen_case(rng, maxdim=14, exact=True):
                 s = lo + (i * 2 + j * 3) % (vmax - lo + 1)
             elif style == 'const-src':
                 s = min(vmax, 7)
+            elif style == 'high-level':
+                s = vmax - rng.randint(0, max(2, vmax // 80))
             else:
                 s = rng.randint(lo, max(lo, vmax // 3))
             if neg and rng.random() < 0.3:
@@ -127,6 +133,8 @@ def gen_case(rng, maxdim=14, exact=True):
             elif anti and j >= anti_cols:
                 # anti-correlated: clean negative gains with a high R2 (the in-paint rule treats them like low-R2 pixels)
                 r = round(ga * s + oa + rng.randint(-1, 1))
+            elif style == 'high-level':
+                r = round(0.5 * s + (vmax // 4) + 3 * (s - vmax) + rng.randint(-1, 1))       # (steep local relation, large offset)
             elif style == 'linear':
                 r = round(g * s + o)
             else:
@@ -144,7 +152,7 @@ def gen_case(rng, maxdim=14, exact=True):
 
 
 # ------------------------------------------------------------------------------------------------ brute-force oracle
-def brute_check(model, kshape, thresh, src, ref, out, rtol=2e-4):
+def brute_check(model, kshape, thresh, src, ref, out, rtol=2e-4, exact_sums=False):
     """C01 stated directly: for each pixel recompute the definition from explicit loops over the window.
     Returns None or a dict describing the first violating pixel."""
     P = out['params']
@@ -190,11 +198,17 @@ def brute_check(model, kshape, thresh, src, ref, out, rtol=2e-4):
                     continue
                 eg = sum((x - mx) * (y - my) for x, y in zip(xs, ys)) / var
                 eo = my - eg * mx
-            cond = 1.0
+            cond = cond_raw = 1.0
             if model == 'gain-offset':
                 cond = (sum(x * x for x in xs) / max(var, 1e-12))   # amplification of float32 noise
-                if cond > 200:
+                if cond > 200 and not exact_sums:
                     continue
+                cond_raw = cond
+                if exact_sums:
+                    # (small integers: every float32 kernel sum and product is exact, nothing is amplified in gain and offset - a high level with
+                    # little texture is judged like any other window, with the rounding of the final divisions only; R2 is different: the rounded
+                    # gain and offset enter its expanded residual sum, which cancels, so it keeps the conditioning filter)
+                    cond = min(cond, 200.0)
             # centroid: always, also for in-painted pixels
             if math.isfinite(pg) and math.isfinite(po) and not near(pg * mx + po, my, scale=abs(pg * mx) + abs(po) + 1e-3 * cond):
                 return dict(pixel=[i, j], what='fitted line does not pass through the window centroid', got=[pg, po], mean=[mx, my])
@@ -218,7 +232,7 @@ def brute_check(model, kshape, thresh, src, ref, out, rtol=2e-4):
                     rss = sum((y - (pg * x + po)) ** 2 for x, y in zip(xs, ys))
                 er2 = 1 - rss / tss
                 amp = (sum(y * y for y in ys) + 1) / tss
-                if amp < 200 and math.isfinite(er2) and not near(pr, er2, scale=1 + 20 * amp * 1e-3):
+                if amp < 200 and not (model == 'gain-offset' and cond_raw > 200) and math.isfinite(er2) and not near(pr, er2, scale=1 + 20 * amp * 1e-3):
                     return dict(pixel=[i, j], what='R2 differs from 1 - RSS/TSS of the window', got=pr, expected=er2)
     return None
 
